@@ -35,18 +35,42 @@ pub fn cases(ctx: &Ctx) -> Vec<Case> {
         if let Some(s) = &comps[3] { b.with_prefix(s.clone()); }
         if let Some(s) = &comps[4] { b.with_suffix(s.clone()); }
         let p = b.build();
-        let printed = p.to_dicom_string();
+        // the implementation may panic (a seeded change did: String::truncate off a char boundary):
+        // a panic inside the property's domain is an oracle failure, not a harness crash
+        let printed = match catch(|| p.to_dicom_string()) {
+            Some(s) => s,
+            None => {
+                let is_clean = comps.iter().flatten().all(|s| !s.contains('^') && s.trim() == s);
+                out.push(Case {
+                    coq: String::new(),
+                    desc: json!({"components": comps, "panic": "to_dicom_string", "bucket": "panic"}),
+                    key: format!("{:?}|panic", comps),
+                    oracle: if is_clean { Oracle::Fails { class: "to-dicom-string-panics".into(), detail: format!("{:?}", comps) } } else { Oracle::NotApplicable },
+                });
+                continue;
+            }
+        };
         // arbitrary text for from_text: the printed form, or a random string with extra carets/space
         let text = if r.chance(2, 3) { printed.clone() } else {
             let n = r.below(12);
             (0..n).map(|_| if r.chance(1, 3) { '^' } else if r.chance(1, 6) { ' ' } else { rand_unicode_char(&mut r) }).collect()
         };
-        let parsed = PersonName::from_text(&text);
-        let parsed_c = comps_of(&parsed);
+        let parsed_c = match catch(|| comps_of(&PersonName::from_text(&text))) {
+            Some(c) => c,
+            None => {
+                out.push(Case {
+                    coq: String::new(),
+                    desc: json!({"text": text, "panic": "from_text", "bucket": "panic"}),
+                    key: format!("{}|panic", text),
+                    oracle: Oracle::Fails { class: "from-text-panics".into(), detail: format!("{:?}", text) },
+                });
+                continue;
+            }
+        };
         // direct oracle on the implementation: clean components round-trip (Some "" == absent)
         let is_clean = comps.iter().flatten().all(|s| !s.contains('^') && s.trim() == s);
         let oracle = if is_clean {
-            let back = comps_of(&PersonName::from_text(&printed));
+            let back = catch(|| comps_of(&PersonName::from_text(&printed))).unwrap_or_default();
             let want: Vec<Option<String>> = comps.iter().map(|o| o.clone().filter(|s| !s.is_empty())).collect();
             if back == want { Oracle::Holds } else { Oracle::Fails { class: "roundtrip".into(), detail: format!("{:?} -> {:?} -> {:?}", comps, printed, back) } }
         } else { Oracle::NotApplicable };
